@@ -1,6 +1,7 @@
 #include "oracle.hpp"
 
 #include <Eigen/LU>
+#include <algorithm>
 #include <cmath>
 #include <cstdio>
 #include <stdexcept>
@@ -68,6 +69,38 @@ Vec solve(const Mat & A, const Vec & b)
 {
   Eigen::FullPivLU<Mat> lu(A);
   return lu.solve(b);
+}
+
+Vec eigvals_sym(const Mat & A0)
+{
+  const int n = int(A0.rows());
+  Mat A       = (A0 + A0.transpose()) / 2;
+  for (int sweep = 0; sweep < 60; ++sweep) {
+    L off = 0;
+    for (int p = 0; p < n; ++p)
+      for (int q = p + 1; q < n; ++q) off += A(p, q) * A(p, q);
+    if (off <= 1e-40L * (1 + maxabs(A) * maxabs(A))) break;
+    for (int p = 0; p < n; ++p)
+      for (int q = p + 1; q < n; ++q) {
+        if (A(p, q) == 0) continue;
+        const L theta = (A(q, q) - A(p, p)) / (2 * A(p, q));
+        const L t     = (theta >= 0 ? 1 : -1) / (fabsl(theta) + sqrtl(theta * theta + 1));
+        const L c = 1 / sqrtl(t * t + 1), s = t * c;
+        for (int k = 0; k < n; ++k) {
+          const L akp = A(k, p), akq = A(k, q);
+          A(k, p) = c * akp - s * akq;
+          A(k, q) = s * akp + c * akq;
+        }
+        for (int k = 0; k < n; ++k) {
+          const L apk = A(p, k), aqk = A(q, k);
+          A(p, k) = c * apk - s * aqk;
+          A(q, k) = s * apk + c * aqk;
+        }
+      }
+  }
+  Vec ev = A.diagonal();
+  std::sort(ev.data(), ev.data() + n);
+  return ev;
 }
 
 Mat sqrtm_db(const Mat & A)
